@@ -15,7 +15,7 @@
 //!   c<hex>                 ScriptBit::Coinbase
 //!   i<dec>.<np>.<nf|x>     ScriptBit::If{code, pass = next np bits, fail = the nf bits after them (x = None)}
 use crate::util::*;
-use bsv::{Interpreter, OpCodes, Script, ScriptBit, State, Status, Transaction, TxIn};
+use bsv::{Interpreter, OpCodes, Script, ScriptBit, State, Status, Transaction, TxIn, TxOut};
 
 /// OpCodes value of a byte, obtained through the parser (the harness has no num-traits dependency).
 fn opcode_of(c: u8) -> Option<OpCodes> {
@@ -202,7 +202,7 @@ fn step_vs_run_with(mk: &dyn Fn() -> Interpreter) -> String {
         }
     }
     let st = it.state();
-    let stepped = format!("{};{}", show_state(&st), it.script_index());
+    let stepped = format!("{};{};{}", show_state(&st), it.script_index(), it.script_bits().len());
     let now = (show_items(&st.stack), show_items(&st.alt_stack));
     let keeps = if now == last { 1 } else { 0 };
     // one more call after an error: still an error, stacks untouched
@@ -229,7 +229,7 @@ fn step_vs_run_with(mk: &dyn Fn() -> Interpreter) -> String {
         Err(_) => "E",
     };
     let st2 = it2.state();
-    let ran = format!("{};{}", show_state(&st2), it2.script_index());
+    let ran = format!("{};{};{}", show_state(&st2), it2.script_index(), it2.script().to_script_bits().len());
     let same = if (so == "F") == (ro == "O") && now == (show_items(&st2.stack), show_items(&st2.alt_stack)) { 1 } else { 0 };
     format!("OK:{};{};{};{};{};{};{};{}", so, n, stepped, ro, ran, again, same, keeps)
 }
@@ -256,9 +256,51 @@ fn do_txrun(args: &[String]) -> String {
     step_vs_run_with(&|| Interpreter::from_transaction(&tx, idx).unwrap())
 }
 
+/// interp.txsafe <unlock> <lock> <idx> <nout>
+/// Like interp.txrun, but the data may be real-looking signatures and keys, so the outcome of the signature checks is
+/// not predicted; the result is three facts the property demands of ANY run: stepping equals run, an error keeps the
+/// stacks (and a second next() is again an error with the same stacks), and Interpreter::from_transaction_and_script_bits
+/// on the same bits behaves identically.  A panic anywhere in the CHECKSIG family shows as PANIC.
+fn do_txsafe(args: &[String]) -> String {
+    let (u, l, idx, nout) = match (arg_bytes(args, 0), arg_bytes(args, 1), arg_u64(args, 2), arg_u64(args, 3)) {
+        (Some(u), Some(l), Some(i), Some(n)) => (u, l, i as usize, n),
+        _ => return "BADARG".into(),
+    };
+    let (us, ls) = match (Script::from_bytes(&u), Script::from_bytes(&l)) {
+        (Ok(a), Ok(b)) => (a, b),
+        _ => return "ERR".into(),
+    };
+    let mut tx = Transaction::new(1, 0);
+    let mut txin = TxIn::new(&[7u8; 32], 1, &us, Some(0xfffffffe));
+    txin.set_locking_script(&ls);
+    txin.set_satoshis(1000);
+    tx.add_input(&txin);
+    for k in 0..nout {
+        tx.add_output(&TxOut::new(500 + k, &ls));
+    }
+    let first = match Interpreter::from_transaction(&tx, idx) {
+        Ok(i) => i,
+        Err(_) => return "ERR".into(),
+    };
+    let bits = first.script_bits();
+    let a = step_vs_run_with(&|| Interpreter::from_transaction(&tx, idx).unwrap());
+    let b = step_vs_run_with(&|| Interpreter::from_transaction_and_script_bits(tx.clone(), idx, bits.clone()));
+    let f: Vec<&str> = a.split(';').collect();
+    let n = f.len();
+    if n < 4 || !f[0].starts_with("OK:") {
+        return a;
+    }
+    let so = &f[0][3..];
+    let again_ok = (so == "F" && f[n - 3] == "-") || (so == "E" && f[n - 3] == "E1");
+    format!("OK:{};{};{};{}", f[n - 2], f[n - 1], if again_ok { 1 } else { 0 }, if a == b { 1 } else { 0 })
+}
+
 pub fn run(op: &str, args: &[String]) -> Option<String> {
     if op == "interp.txrun" {
         return Some(do_txrun(args));
+    }
+    if op == "interp.txsafe" {
+        return Some(do_txsafe(args));
     }
     let (src, f): (Src, fn(&Script) -> String) = match op {
         "interp.run" => (Src::Bytes, do_run),
